@@ -39,6 +39,8 @@ structure DState where
   staged : List (String × Pipe.Src × Nat × Bytes) := []
   /-- pipes wired with the panic wrappers of main.go (`pipew`) -/
   wrapped : List String := []
+  /-- `failat`: the format of this pipe refuses the k-th message of the next datagram -/
+  failAt : List (String × Nat) := []
 
 def DState.cfg (st : DState) (cid : String) : Producer.Config :=
   match st.cfgs.lookup cid with | some c => c.cfg | none => {}
@@ -212,13 +214,20 @@ def execOp (st : DState) (line : String) : DState × Option (List String) :=
   | ["udp", _, _, _, _, _, _] =>
     -- Proofs/C17.lean: conservation, disjointness, blocking_no_drop, buffer_exclusive for every schedule
     (st, some ["res ok dup=0 both=0 corrupt=0 unaccounted=0 blockingdrops=0 stop=ok leak=0 rebind=1 errsrc=0"])
-  | ["updown", _, _, _, _, calls] =>
-    let cs := calls.toList.map fun c => if c = 'S' then Conc.Receiver.Call.start else Conc.Receiver.Call.stop
-    -- the `ready`-channel protocol of the code (callResults), proved equal to the specification in Proofs/C18.lean
-    -- `dead`: successful Starts after which nothing is decoded; 0 because the quit channel is open whenever
-    -- a call returns (quit_open_after_every_call)
-    let (fin, errs) := Conc.Receiver.callRun2 Conc.Receiver.callInit cs
-    (st, some ["res ok results=" ++ ",".intercalate (errs.map fun e => if e then "1" else "0") ++ " corrupt=0 leak=0 rebind=1 dead=" ++ (if fin.qClosed then "1" else "0") ++ " stolen=0"])
+  | ["updown", sk, wk, q, _, calls] =>
+    -- Start / Stop sequences, a Start possibly failing to bind ('F'): the statement-level model of Start, Stop and init
+    -- (Goflow/Conc/ReceiverFaults.lean: WaitGroup counter, decodersCnt, live workers with the decoder each captured,
+    -- readers, nil sentinels), proved equal to the specification for every sequence in Proofs/C18Faults.lean
+    -- `dead`: the quit channel is closed when the last call returns; `stolen`: live workers that do not run the decoder
+    -- of the session
+    let cfg : Conc.ReceiverFaults.RCfg := ⟨wk.toNat!, sk.toNat!, q.toNat!⟩
+    let cs : List Conc.ReceiverFaults.CallF := (calls.toList.zip (List.range calls.length)).map fun (c, i) =>
+      if c = 'S' then .start (i + 1) else if c = 'F' then .startFail (i + 1) 0 else .stop
+    let (fin, rs) := Conc.ReceiverFaults.runF cfg Conc.ReceiverFaults.initF cs
+    let sess := (Conc.ReceiverFaults.specRunF none cs).1
+    let stolen := (fin.workers.filter fun f => some f != sess).length
+    (st, some ["res ok results=" ++ ",".intercalate (rs.map fun r => match r with | .ok => "0" | .err => "1" | .hang => "H") ++
+      " corrupt=0 leak=0 rebind=1 dead=" ++ (if fin.qClosed then "1" else "0") ++ " stolen=" ++ toString stolen])
   | ["startbusy", _, _, _, _] =>
     -- a Start that cannot bind reports the error and leaves the receiver stopped (Proofs/C18.lean start_stop_results: a
     -- failed Start changes nothing); the next Start succeeds
@@ -271,6 +280,7 @@ def execOp (st : DState) (line : String) : DState × Option (List String) :=
       let w := Pipe.widest k ps src d
       (st', some [r ++ " n=" ++ toString o.msgs.length ++ " budget=ok", "cost " ++ toString cost ++ " " ++ toString w])
     | _, _, _ => (st, some ["bad-op"])
+  | ["failat", pid, k] => ({ st with failAt := (pid, k.toNat!) :: st.failAt.filter (fun e => e.1 != pid) }, some ["res ok"])
   | ["poison", _, _] => (st, some ["res ok"])      -- the model has no message pool: every message starts from Reset()
   | ["pkt", pid, iphex, port, recv, hex] =>
     match st.pipes.lookup pid, parseHex iphex, parseHex hex with
@@ -283,8 +293,8 @@ def execOp (st : DState) (line : String) : DState × Option (List String) :=
         let st' := { st with pstate := (pid, o.state) :: st.pstate.filter (fun e => e.1 != pid) }
         (st', some ((Wrapped.resLineW o.err ++ " n=" ++ toString o.msgs.length) :: o.msgs.map FlowMsg.dump))
       else
-      let o := Pipe.decodeFlow k cfg ps ⟨ip, port.toNat!⟩ recv.toNat! d
-      let st' := { st with pstate := (pid, o.state) :: st.pstate.filter (fun e => e.1 != pid) }
+      let o := Pipe.refuseAt ((st.failAt.lookup pid).getD 0) (Pipe.decodeFlow k cfg ps ⟨ip, port.toNat!⟩ recv.toNat! d)
+      let st' := { st with pstate := (pid, o.state) :: st.pstate.filter (fun e => e.1 != pid), failAt := st.failAt.filter (fun e => e.1 != pid) }
       let r := match o.err with
         | none => "res ok"
         | some e => resLine e
